@@ -20,6 +20,7 @@ CONSTANTS
   FinMax = 0
   PostA = {}
   PostLen = 0
+  WrappedSet = {"none"}
 CONSTRAINT Reached
 POSTCONDITION Accepted
 CHECK_DEADLOCK FALSE
